@@ -1,18 +1,23 @@
 #!/bin/bash
-# usage: canaries.sh [commit...] : every repaired defect is a must-fail canary: the fix commit is reverted in the working
-# tree of /repo (never committed), the quick check of the property it is recorded under must report a VIOLATION, and the
-# tree is restored. Run only with a clean /repo and never in parallel with other checks.
+# usage: canaries.sh [commit...] : every repaired defect is a must-fail canary. For each "fixed:" entry of known_findings.txt
+# the fix commit is reverted in a SCRATCH worktree of /repo's HEAD (never in /repo), the quick check of the property
+# it is recorded under runs against that worktree with a scratch evidence directory (replay switched off: only
+# "does the obligation fail again" is asked), and must report a VIOLATION. /repo and /verif/evidence are not touched.
+export GOFLAGS=-mod=mod GOPROXY=off GOSUMDB=off GOTOOLCHAIN=local GOVC_NOREPLAY=1
 cd /verif
-if [ -n "$(git -C /repo status --porcelain)" ]; then echo "/repo not clean"; exit 2; fi
+W=/var/tmp/canary-wt; V=/var/tmp/canary-verif
+rm -rf $V; mkdir -p $V/evidence $V/replays
+for f in props.json claims.json known_findings.txt contracts-mirror MANIFEST.json properties.jsonl; do ln -s /verif/$f $V/$f; done
 list=$(grep '^fixed:' known_findings.txt | awk '{print $2" "$3}' | sed 's/property=//' | sort -u)
 [ $# -gt 0 ] && list=$(for c in "$@"; do grep "^fixed:.* $c " known_findings.txt | awk '{print $2" "$3}' | sed 's/property=//'; done | sort -u)
 bad=0
 while read -r prop commit; do
   [ -z "$prop" ] && continue
-  if ! git -C /repo show $commit -- . ':(exclude)*contracts_verif.go' | git -C /repo apply -R 2>/dev/null; then echo "CANARY $prop $commit: cannot revert (later commits touch the same lines)"; continue; fi
-  out=$(./check $prop quick 2>&1); rc=$?
-  git -C /repo checkout -- .
+  git -C /repo worktree remove --force $W 2>/dev/null; git -C /repo worktree add -q --detach $W HEAD || exit 9
+  if ! git -C /repo show $commit -- . ':(exclude)*contracts_verif.go' | git -C $W apply -R 2>/dev/null; then echo "CANARY $prop $commit: cannot revert (later commits touch the same lines)"; continue; fi
+  out=$(/verif/bin/govc check -repo $W -verif $V -property $prop -tier quick 2>&1); rc=$?
   n=$(echo "$out" | grep -c '^VIOLATION')
-  if [ $rc -ne 0 ] && [ $n -gt 0 ]; then echo "CANARY $prop $commit: detected ($n violation lines)"; else echo "CANARY $prop $commit: MISSED rc=$rc"; bad=1; fi
+  if [ $rc -ne 0 ] && [ $n -gt 0 ]; then echo "CANARY $prop $commit: detected ($n violation lines)"; else echo "CANARY $prop $commit: MISSED rc=$rc $(echo "$out" | tail -1)"; bad=1; fi
 done <<< "$list"
+git -C /repo worktree remove --force $W 2>/dev/null; git -C /repo worktree prune; rm -rf $V
 exit $bad
